@@ -67,46 +67,49 @@ fn any_frame(k: u64, rng: &mut StdRng) -> Frame {
     }
 }
 
-/// the longest name (namespace + topic, in bytes) a registration frame of this role can carry within
-/// the frame limit, found with the real codec
+/// The longest name (namespace + topic, in bytes) a registration frame of this role can carry: the limit is the
+/// protocol's (1 MiB of payload, Framing.tla), not whatever the encoder under test accepts.  Payload: two
+/// length-prefixed strings, for publishers and subscribers also the retention policy and the operations count.
 fn max_name_len(role: &str) -> usize {
-    use selium_protocol::MessageCodec;
-    use tokio_util::codec::Encoder;
-    static MAX: std::sync::OnceLock<std::sync::Mutex<std::collections::HashMap<String, usize>>> = std::sync::OnceLock::new();
-    let m = MAX.get_or_init(Default::default);
-    if let Some(v) = m.lock().unwrap().get(role) {
-        return *v;
-    }
-    let mut l = 1024 * 1024usize;
-    loop {
-        let f = reg_frame(role, TopicName::_create_unchecked(&"a".repeat(l - 5), "topic"));
-        let mut buf = bytes::BytesMut::new();
-        if MessageCodec.encode(f, &mut buf).is_ok() {
-            break;
-        }
-        l -= 1;
-    }
-    m.lock().unwrap().insert(role.to_string(), l);
-    l
+    1024 * 1024 - if role == "pub" || role == "sub" { 32 } else { 16 }
 }
 
 /// names the grammar refuses: the classes of TopicName.tla made concrete, among them long ones, ones
 /// made of multi-byte characters (at changing byte offsets) and ones that fill the frame to its limit
+/// Guard against this generator's own mistakes: a name that might be valid (both parts 3 to 64 characters of
+/// letters, digits, marks, connectors or hyphens, namespace not starting with the reserved word) is never
+/// offered as an invalid one.  Deliberately generous towards "valid".
+fn might_be_valid(ns: &str, topic: &str) -> bool {
+    let part = |p: &str| {
+        let n = p.chars().count();
+        (3..=64).contains(&n) && p.chars().all(|c| c.is_alphanumeric() || c == '_' || c == '-' || (!c.is_ascii() && !c.is_whitespace() && !"€𝄞".contains(c)))
+    };
+    part(ns) && part(topic) && !ns.to_lowercase().starts_with("selium")
+}
+
 fn invalid_name(k: u64, role: &str) -> TopicName {
+    let t = invalid_name_unchecked(k, role);
+    if might_be_valid(t.namespace(), t.topic()) {
+        return TopicName::_create_unchecked("ab", "topic");
+    }
+    t
+}
+
+fn invalid_name_unchecked(k: u64, role: &str) -> TopicName {
     let v: [(&str, &str); 8] = [
         ("ab", "topic"), ("selium", "topic"), ("seliumfoo", "bar"), ("name space", "topic"), ("namespace", "t!"),
         ("namespace", ""), ("é€", "topic"), ("namespace", "x/y/z"),
     ];
     let h = k.wrapping_mul(0x9E37_79B9_7F4A_7C15) >> 20;
     match k % 13 {
-        8 => TopicName::_create_unchecked(&format!("{}{}", "abc".get(..(h % 4) as usize).unwrap_or(""), "é".repeat(33 + (h % 90) as usize)), "topic"),
+        8 => TopicName::_create_unchecked(&format!("{}{}", "abc".get(..(h % 4) as usize).unwrap_or(""), "é".repeat(65 + (h % 60) as usize)), "topic"),
         9 => TopicName::_create_unchecked(&"a".repeat([65usize, 97, 300, 4096, 70_000][(h % 5) as usize]), "topic"),
         10 => {
             let l = max_name_len(role) - (h % 3) as usize;
             TopicName::_create_unchecked(&"a".repeat(l - 5), "topic")
         }
         11 => TopicName::_create_unchecked(&["€", "𝄞", "aé€𝄞"][(h % 3) as usize].repeat(22 + (h % 60) as usize), "t€"),
-        12 => TopicName::_create_unchecked("namespace", &format!("{}{}", "x".repeat((h % 7) as usize), "ü".repeat(40 + (h % 80) as usize))),
+        12 => TopicName::_create_unchecked("namespace", &format!("{}{}", "x".repeat((h % 7) as usize), "ü".repeat(65 + (h % 60) as usize))),
         j => {
             let (a, b) = v[(j % 8) as usize];
             TopicName::_create_unchecked(a, b)
